@@ -108,7 +108,7 @@ def call_current(ev, repo, cls, kind):
         r = ev.call(fi, [S, A("v"), P], selfv=ObjV(cls))
     else:
         r = ev.call(fi, [S, A("v_pre"), A("v_post"), P], selfv=ObjV(cls))
-    return rat_of(r), S, P
+    return main_region(r), S, P
 
 
 def call_init(ev, repo, cls):
@@ -246,3 +246,23 @@ def module_helpers(repo, file):
     """Module-level numeric helper functions of a mechanism file (e.g. _vtrap, efun)."""
     mi = repo.mod(file)
     return [fi for fi in mi.functions.values()]
+
+
+def main_region(v) -> Rat:
+    """The form on the region where every guard is false (the generic voltage)."""
+    pw = as_pw(v)
+    cand = [r for c, r in pw.pieces if all(not b for _g, b in c)]
+    if len(cand) != 1:
+        raise Und("no unique main region")
+    return cand[0]
+
+
+def region_name(ev, conds) -> str:
+    if not conds:
+        return "all v"
+    out = []
+    for g, b in sorted(conds):
+        kind, lhs, bound = ev.guards[g]
+        txt = f"|{lhs}| < {bound}" if kind == "abs<" else f"{lhs} < {bound}"
+        out.append(txt if b else f"not({txt})")
+    return " and ".join(out)
